@@ -222,7 +222,7 @@ class World(object):
         if m == 'OPEN':
             caps = ev.get('caps')
             if caps is None:
-                caps = ['mp', 'rr', 'as4']
+                caps = self.cfg.get('peer_caps') or ['mp', 'rr', 'as4']
             asn = ev.get('asn', ras)
             return wire.open_msg(asn, ev.get('h', 90), bgp_id=ev.get('id', 0x0a000002), caps=caps, version=ev.get('ver', 4),
                                  one_param_each=ev.get('each', True))
